@@ -17,7 +17,7 @@
 EXTENDS TraceLib, CoreExpr
 
 P == INSTANCE Pipeline WITH Ev <- CoreEv, DevLimiterNoComplete <- FALSE, DevPopOldest <- FALSE, DevTruncAll <- FALSE,
-                            DevSwallowBreak <- FALSE
+                            DevSwallowBreak <- FALSE, DevSplitLast <- FALSE
 R == INSTANCE Rfc8259 WITH DoubleOf <- TraceDoubleOf
 
 VARIABLE l
@@ -56,7 +56,9 @@ CheckRel(r) ==
       b == ParseOut(r.base, r.sep)
   IN IF r.res # "ok" \/ r.bres # "ok" THEN Flag("MISMATCH", r.case, "a run did not succeed")
      ELSE IF r.rel = "concat" /\ ~r.json          \* text / csv output: the relation is on the bytes
-          THEN (IF r.out # r.base \o r.base2 THEN Flag("MISMATCH", r.case, "concat: bytes differ") ELSE TRUE)
+          \* r.hdr: what the same pipeline prints for an empty input (the csv / --headers title row), printed once per run
+          THEN (IF ~IsPrefixOf(r.hdr, r.base2) \/ r.out # r.base \o SubSeq(r.base2, Len(r.hdr) + 1, Len(r.base2))
+                THEN Flag("MISMATCH", r.case, "concat: bytes differ") ELSE TRUE)
      ELSE IF ~o.ok \/ ~b.ok THEN Flag("MISMATCH", r.case, "output is not a sequence of JSON rows")
      ELSE LET want ==
             CASE r.rel = "slice" -> Collected(r.cfg, P!Slice(b.rows, r.cfg.skip, r.cfg.take))
@@ -76,14 +78,15 @@ Needed(cfg, vals, n) ==
   ELSE Needed(cfg, vals, n + 1)
 CheckStop(r) ==
   LET n == Needed(r.cfg, r.input, 1) IN
-  IF r.res = "hang" THEN Flag("MISMATCH", r.case, "jawk did not return on an unbounded input")
+  IF n = 0 THEN Flag("SKIP", r.case, "the generated values never complete skip+take rows: outside the quantifier")
+  ELSE IF r.res = "hang" THEN Flag("MISMATCH", r.case, "jawk did not return on an unbounded input")
   ELSE IF r.capped THEN Flag("MISMATCH", r.case, "jawk kept reading until the harness cut the input off")
   ELSE IF r.res # "ok" THEN Flag("MISMATCH", r.case, "run did not succeed")
-  ELSE IF n = 0 THEN Flag("GEN", r.case, "the generated values never complete skip+take rows")
   ELSE IF r.pulled > r.ends[n] + r.slack THEN Flag("MISMATCH", r.case, <<"pulled", r.pulled, "bytes; value", n, "ends at", r.ends[n]>>)
   ELSE LET o == ParseOut(r.out, r.sep) IN
        IF ~o.ok \/ ~P!SameRows(o.rows, P!Ref(r.cfg, SubSeq(r.input, 1, n))) THEN Flag("MISMATCH", r.case, "rows differ from the reference")
-       ELSE IF r.pulled > r.ends[n] + 1 THEN Flag("DRIFT", r.case, <<"read-ahead", r.pulled - r.ends[n]>>)
+       \* stdin is read byte by byte: exactly one byte of read-ahead
+       ELSE IF r.exact /\ r.pulled > r.ends[n] + 1 THEN Flag("DRIFT", r.case, <<"read-ahead", r.pulled - r.ends[n]>>)
        ELSE TRUE
 
 Check(r) == CASE r.kind = "ref" -> CheckRef(r) [] r.kind = "rel" -> CheckRel(r) [] r.kind = "stop" -> CheckStop(r)
